@@ -28,7 +28,7 @@ def run_walks(ctx, kinds_wanted, ops_wanted, n_quick, n_thorough, regress_names=
         report.count("theme", theme)
         for k, c in steps.items():
             report.count("steps", k, c)
-        violations += [x for x in v if x["kind"] in kinds_wanted]
+        violations += [x for x in v if x["kind"] in kinds_wanted or x["kind"] == "hang"]
     sel = [(q, e, r) for q, e, r in reqs if r["op"] in ops_wanted]
     answers = nv.Model().ask([q for q, _, _ in sel])
     for (q, exp, replay), ans in zip(sel, answers):
